@@ -450,6 +450,8 @@ func sliceIdentity(m *openfgav1.AuthorizationModel) []*openfgav1.TypeDefinition 
 	return append([]*openfgav1.TypeDefinition{}, m.GetTypeDefinitions()...)
 }
 
+var recycledWGModel = &openfgav1.AuthorizationModel{}
+
 func wgReplay(args []string) error {
 	fs := flag.NewFlagSet("wg-replay", flag.ExitOnError)
 	in := fs.String("in", "", "input ndjson")
@@ -520,6 +522,13 @@ func wgReplay(args []string) error {
 					}
 				}
 			}
+		}
+		// a caller that re-uses ONE message value for model after model (proto.Reset ; proto.Merge): the identity of the message is
+		// not the identity of the model - whatever the previous model left behind under that pointer must not be used
+		for i := 0; i < 2; i++ {
+			proto.Reset(recycledWGModel)
+			proto.Merge(recycledWGModel, before)
+			record(buildWG(recycledWGModel, nil).outcome)
 		}
 		// the same model shaped the way API clients write it (metadata entries only for relations with a direct assignment):
 		// structure and weights do not depend on that
